@@ -86,7 +86,44 @@ def make_spec(c, rng):
     return spec
 
 
+def run_rig(c, rng):
+    """R - pipe - J(leak) with the junction a few millimetres to centimetres below the grade line, and a tank that leaks through
+    its floor at a level of a few centimetres: the leak law at very low positive pressures (the smoothing band is 0.1 mm wide)."""
+    import wntr
+    wn = wntr.network.WaterNetworkModel()
+    z = gnet._round(rng.uniform(5, 40), 3)
+    dp = rng.choice([0.0005, 0.002, 0.01, 0.03, 0.045, 0.08, gnet._round(rng.uniform(0.0003, 0.2), 5)])
+    wn.options.time.duration = 3 * 3600
+    wn.options.time.hydraulic_timestep = 3600
+    wn.options.time.report_timestep = 3600
+    wn.options.hydraulic.demand_model = rng.choice(['DD', 'PDD'])
+    wn.add_reservoir('R', base_head=z + dp)
+    wn.add_junction('J', base_demand=0.0, elevation=z)
+    wn.add_junction('K', base_demand=0.001, elevation=z - 30.0)
+    wn.add_pipe('P1', 'R', 'J', length=5.0, diameter=1.0, roughness=140)
+    wn.add_pipe('P2', 'R', 'K', length=100.0, diameter=0.3, roughness=120)
+    lv = rng.choice([0.003, 0.01, 0.03, 0.045, 0.1])
+    wn.add_tank('T', elevation=z - 10.0, init_level=lv, min_level=0.0, max_level=5.0, diameter=40.0)
+    wn.add_pipe('P3', 'K', 'T', length=50.0, diameter=0.2, roughness=120, initial_status='CLOSED')
+    leaks = {'J': {'node': 'J', 'area': gnet._round(10 ** rng.uniform(-5, -3), 6), 'cd': rng.choice([0.75, 0.6]), 'start': 0, 'end': None},
+             'T': {'node': 'T', 'area': gnet._round(10 ** rng.uniform(-6, -5), 7), 'cd': 0.75, 'start': 0, 'end': None}}
+    for n, l in leaks.items():
+        wn.get_node(n).add_leak(wn, area=l['area'], discharge_coeff=l['cd'], start_time=0, end_time=None)
+    sample = {'rig': 'low positive pressure', 'dp': dp, 'tank_level': lv, 'leaks': leaks, 'demand_model': wn.options.hydraulic.demand_model}
+    c.sample = sample
+    c.set_sig('rig', dp, lv, wn.options.hydraulic.demand_model)
+    tr = simobs.run_wntr(wn, deep=False)
+    if tr.exception is not None or not simobs.converged(tr):
+        c.inconclusive('sim_failed: %s' % (type(tr.exception).__name__ if tr.exception else 'not_converged'))
+        return
+    c.count('low_pressure_rig_cases')
+    check_leaks(c, wn, tr.results, leaks, sample, 'low-pressure rig')
+    c.nontrivial = True
+
+
 def run_case(c, rng):
+    if c.index % 10 == 7:
+        return run_rig(c, rng)
     spec = make_spec(c, rng)
     hist = ['single', 'single', 'reset_rerun', 'remove_before', 'remove_continue'][c.index % 5]
     sample = {'spec': spec, 'history': hist}
